@@ -334,6 +334,27 @@ theorem rotate_tool_order_counterexample :
     (let cut := Rotate.exec Rotate.codeVariant ⟨.err, 2⟩ 0 .init (Rotate.codeEvents [(0, 1)])
      cut.2 = .ok ∧ cut.1.files 0 0 = some 1 ∧ cut.1.offered 0 = [0]) := by decide +kernel
 
+/-- **rotate_tool_rewrite_error_counterexample** (known finding `rotate-tool:data-file-torn-in-place`). The tool
+rewrites a data file in place (`ioutil.WriteFile`: truncate, then write). A write error while the first file is
+rewritten (event 1 – disk full, quota, file size limit) makes the tool stop with an error, correctly – but the
+file now holds a prefix of the new ciphertext: it can be decrypted with no key at all, old or new. -/
+theorem rotate_tool_rewrite_error_counterexample :
+    let cut := Rotate.exec Rotate.codeVariant ⟨.err, 1⟩ 0 .init (Rotate.codeEvents [(0, 1)])
+    cut.2 = .err ∧ cut.1.files 0 0 = none ∧ cut.1.offered 0 = [0] := by decide +kernel
+
+/-- **rotate_save_cut_keeps_old_key.** The save of the new key pair opened up into the key store's own write
+operation (v1: the 16 storage calls of the rotation of a key pair = two key files; v2: the 13 back-end calls of
+`AddKey` + `SetCurrent`) and cut by a crash right after ANY of its calls (`j < 32` covers every call and "no cut"):
+after the restart the key store offers the old key alone or the new key and the old one – never nothing, never
+the new key alone. The new key is offered exactly from the `Rename` that puts the new PRIVATE key file in place
+(v1, call 8) / the `Rename` that installs the ring with the added key (v2, call 6) on; before that the rewritten
+files are lost (known finding `rotate-tool:data-rewritten-before-key-saved`). In particular the v1 state "new
+private key, old public key" (known finding `v1:key-pair-half-written`) already decrypts the rewritten files. -/
+theorem rotate_save_cut_keeps_old_key :
+    ∀ j < 32,
+      ((Rotate.saveCutV1 j).2.2 = some (if 8 ≤ j then [1, 0] else [0])) ∧
+      ((Rotate.saveCutV2 j).2.2 = some (if 6 ≤ j then [1, 0] else [0])) := by decide +kernel
+
 /-- **rotate_tool_order_partial** (the order that makes `rotate_tool_order` true). If the new key pair of
 an id is saved before the first file of that id is rewritten and files are replaced atomically, then for
 every file map (any key ids, any numbers of files), every fault mode and every cut, every data file can be
